@@ -43,7 +43,7 @@ LEVEL_TEXT = (
 )
 LEVEL_NOTE = "Trusted: the reference in this module (ref_member). No proof of absence beyond the enumerated bound."
 RULE = (
-    "token streams (len<=12) over flags {a,b,c,~a,**}, their negations, -*, *, @g/@h/@n(ested)/@missing and "
+    "token streams (len<=12) over flags {a,b,c,~a,**}, their negations, -*, *, @FREE/@L1../@ALL (nesting depth 0-3, any listing order)/@missing and "
     "-@g.., plus bare '-', '-@', '@'; random base sets; license worlds = generated license_groups files; "
     "non-trivial = stream has a negation after a positive of the same token (or vice versa), or -* not in first "
     "position, or a group token; distinct = distinct (kind, stream, base)"
@@ -243,7 +243,8 @@ def _diffclass(tokens, got, exp):
 class LicWorld:
     """license_groups file on disk + the harness' own closure of the definitions"""
 
-    def __init__(self, ctx, defs):
+    def __init__(self, ctx, defs, tags=()):
+        self.tags = list(tags)
         # defs: list of [name, [members...]] (members: license names or @group of an EARLIER entry)
         from types import SimpleNamespace
 
@@ -282,7 +283,7 @@ def check_license(ctx, world, tokens, pkg_licenses):
     case = {"kind": "license", "groups": world.defs, "tokens": tokens, "licenses": pkg_licenses}
     cl = stream_classes(tokens)
     nontrivial = bool(set(cl) & {"star_not_first", "sign_flip", "group"})
-    ctx.case(case, nontrivial=nontrivial, classes=["license"] + cl,
+    ctx.case(case, nontrivial=nontrivial, classes=["license"] + cl + world.tags,
              key="l|" + repr(world.defs) + "|" + " ".join(tokens) + "|" + " ".join(pkg_licenses))
     incomplete = any(t in ("-", "-@", "@") for t in tokens)
 
@@ -395,24 +396,14 @@ def plain_case():
 
 
 LIC = ["GPL-2", "MIT", "BSD", "EULA", "CC0"]
-GROUP_NAMES = ["g", "h", "n", "m"]
+GROUP_NAMES = ["FREE", "FREE", "L1", "L2", "L3", "EULAS", "ALL"]
 
 
 def lic_world():
-    def mk(members_g, members_h, n_refs, n_extra, m_extra):
-        defs = [["g", sorted(members_g)], ["h", sorted(members_h)]]
-        defs.append(["n", ["@" + r for r in sorted(n_refs)] + sorted(n_extra)])
-        defs.append(["m", ["@n"] + sorted(m_extra)])
-        return defs
+    """(defs in listing order, class tags): nesting depth 0-3, outer-first / inner-first / mixed listing, siblings"""
+    from ..gen import domaincfg
 
-    return st.builds(
-        mk,
-        st.sets(st.sampled_from(LIC), min_size=1, max_size=3),
-        st.sets(st.sampled_from(LIC), min_size=1, max_size=3),
-        st.sets(st.sampled_from(["g", "h"]), min_size=1, max_size=2),
-        st.sets(st.sampled_from(LIC), max_size=2),
-        st.sets(st.sampled_from(LIC), max_size=1),
-    )
+    return domaincfg.tape_strategy(512).map(lambda t: domaincfg.gen_license_group_defs(t, LIC))
 
 
 def lic_token():
@@ -493,10 +484,10 @@ def run_task(ctx, task, **kw):
             worlds.append(w)
 
         core.hyp_run(ctx, lic_world(), collect, kw["worlds"], chunk=kw["worlds"], seed_salt=7)
-        for i, defs in enumerate(worlds):
+        for i, (defs, tags) in enumerate(worlds):
             if ctx.out_of_time():
                 break
-            w = LicWorld(ctx, defs)
+            w = LicWorld(ctx, defs, tags)
             core.hyp_run(ctx, lic_case(), lambda v: check_license(ctx, w, v[0], v[1]), kw["examples"], chunk=kw["examples"], seed_salt=11 + i)
     elif task == "collapsed":
         core.hyp_run(ctx, collapsed_case(), lambda v: check_collapsed(ctx, v[0], v[1]), kw["examples"], chunk=1000, seed_salt=3)
